@@ -1029,6 +1029,21 @@ class CallMixin:
         dt = kw.get("dtype")
         extra = {"dtype": self.res(dt, st)} if dt is not None else None
         # ---- builtins evaluated by the interpreter
+        if q == "builtins.issubclass" and len(P) == 2 and not kw:
+            a_, b_ = P
+            if a_.op == "Class" and b_.op == "Class":
+                return self.const(self.is_subclass(a_.attr, b_.attr), site)
+            if a_.op == "Class" and b_.op == "Ext":
+                return self.const(any(str(x) == b_.attr or str(x).split(".")[-1] == b_.attr.split(".")[-1]
+                                      for x in self.ext_bases(a_.attr)), site)
+            if a_.op == "Ext" and b_.op in ("Class", "Ext") and a_.attr.startswith(("builtins.", "types.")) and \
+                    a_.attr != b_.attr if b_.op == "Ext" else a_.op == "Ext" and a_.attr.startswith(("builtins.", "types.")):
+                return self.const(False, site)
+        if q in ("typing.get_args", "typing_extensions.get_args") and len(P) == 1 and not kw:
+            if P[0].op == "PydAnnot":
+                return self.mk("Tuple", tuple(P[0].extra["members"]), None, site)
+            if P[0].op in ("Class",) or (P[0].op == "Ext" and P[0].attr.startswith("builtins.")):
+                return self.mk("Tuple", (), None, site)        # a plain class has no type arguments
         if q == "types.MethodType" and len(P) == 2 and not kw:
             return self.mk("BoundMethod", (pos[1], pos[0]), None, site)      # MethodType(f, obj)(*a) is f(obj, *a)
         if q == "builtins.isinstance" and len(P) == 2:
@@ -1358,6 +1373,14 @@ class CallMixin:
             a, b = self.fold_isinstance(v.args[1], t), self.fold_isinstance(v.args[2], t)
             return a if (a is not None and a == b) else None
         tq = t.attr if t.op == "Ext" else None
+        if tq == "builtins.type":
+            if v.op == "Class":
+                return True
+            if v.op == "Ext":
+                return v.attr in ("builtins.int", "builtins.float", "builtins.str", "builtins.bool", "builtins.list",
+                                  "builtins.dict", "builtins.tuple", "builtins.bytes", "types.NoneType") or None
+            if v.op in ("PydAnnot", "Const", "Tuple", "List", "Dict", "Obj", "Func", "Closure"):
+                return False            # typing constructs (Optional[...], Union[...]) and values are not classes
         BT = {"builtins.int": int, "builtins.float": float, "builtins.str": str,
               "builtins.bool": bool, "builtins.tuple": tuple, "builtins.list": list,
               "builtins.dict": dict, "builtins.bytes": bytes}
